@@ -1130,6 +1130,12 @@ class PyCdlib:
                         # location on disk.
                         if len_to_use != 0 and extent_to_use in extent_to_inode:
                             ino = extent_to_inode[extent_to_use]
+                            # An Inode that so far is only known from El Torito
+                            # entries (a boot file without an ISO9660 name) got
+                            # its length from the sector count of the entry,
+                            # i.e. rounded up; this record knows the real length.
+                            if ino.linked_records and all(isinstance(rec, eltorito.EltoritoEntry) for rec, is_pvd_unused in ino.linked_records):
+                                ino.data_length = len_to_use
                         else:
                             ino = inode.Inode()
                             ino.parse(extent_to_use, len_to_use, cdfp,
@@ -2170,6 +2176,8 @@ class PyCdlib:
                         else:
                             if abs_file_data_extent != 0 and abs_file_data_extent in extent_to_inode:
                                 ino = extent_to_inode[abs_file_data_extent]
+                                if ino.linked_records and all(isinstance(rec, eltorito.EltoritoEntry) for rec, is_pvd_unused in ino.linked_records):
+                                    ino.data_length = next_entry.get_data_length()
                             elif abs_file_data_extent == 0 and abs_file_entry_extent in empty_fe_extent_to_inode:
                                 ino = empty_fe_extent_to_inode[abs_file_entry_extent]
                             else:
